@@ -1,8 +1,12 @@
 """C35 - git object export is consistent and round-trips.
 
 One case = one generated native history (merges, renames, exec flips, symlinks, binary contents, empty
-directories, names whose git order differs from byte order), judged by three groups of oracles (plus a live
-monitor on breezy.git.fetch.import_git_commit: the trees it caches must keep describing their own revision):
+directories, names whose git order differs from byte order; paths vacated and re-occupied within one revision -
+an entry removed and an untouched directory / file / symlink moved onto its path or a new entry added there, two
+entries trading places; symlink <-> regular file changes that keep the bytes git stores, the file holding the link
+target as its text), judged by three groups of oracles (plus a live monitor on
+breezy.git.fetch.import_git_commit: the trees it caches must keep describing their own revision).  The revision
+shapes the export / import shortcuts are sensitive to are counted (w_* counters, shape:* histogram, no verdict):
 
  (a) from-scratch reference.  For every revision the harness builds dulwich Blob / Tree objects straight
      from the revision-tree snapshot (modes 100644 / 100755 / 120000 / 040000, empty directories omitted,
@@ -36,17 +40,20 @@ TECHNIQUE = ("independent from-scratch reference (dulwich objects built from tre
              "git-origin import -> re-export sha equality, dpush -> plain-dulwich inspection -> fetch back tree equality")
 LEVEL_TEXT = ("generated native histories (quick <= 8 revisions / 3 branches, thorough <= 20 / 4) in 2a (mostly), "
               "1.9-rich-root, pack-0.92 and rich-root-pack; every revision of every history judged by every oracle; "
-              "git side read with plain dulwich only")
+              "git side read with plain dulwich only; about half of the composite edits re-use a path within one revision "
+              "(removed entry replaced by a moved or new one, swaps) or flip symlink <-> file with unchanged git blob")
 RULE = ("one evaluation = one revision judged by one oracle group (a / b / c); distinct = distinct (tree snapshot, parents' "
         "snapshots, oracle group); non-trivial = the revision's tree has a sub-directory, a symlink or an executable "
         "file, or the revision is a merge")
-CASES = {"quick": 64, "thorough": 700}
-BUDGET_S = {"quick": 45, "thorough": 700}
+CASES = {"quick": 56, "thorough": 700}
+BUDGET_S = {"quick": 40, "thorough": 700}
 MIN_EVALS = {"quick": 400, "thorough": 6000}
 FLOORS = {"a_warm_tree": 150, "a_empty_map_tree": 150, "a_deleted_cache_tree": 150, "a_yielded_object": 300,
-          "a_object_served": 600, "a_missing_objects_complete": 40, "b_commit_sha": 100, "b_object_served": 400,
+          "a_object_served": 450, "a_missing_objects_complete": 30, "b_commit_sha": 100, "b_object_served": 400,
           "b_cold_commit_sha": 100, "b_tree_equal": 100, "c_git_commit_tree": 100, "c_fetched_back_tree": 100,
-          "a_merge_revision": 10, "a_parents_swapped_tree": 10}
+          "a_merge_revision": 10, "a_parents_swapped_tree": 10,
+          # workload counters: revisions in which a path changed owner / an entry changed kind keeping its git blob
+          "w_path_taken_over": 25, "w_kind_change_same_blob": 5}
 EXHAUSTIVE = {"quick": False, "thorough": False}
 ASSUMPTIONS = [
     "the per-revision tree snapshot is read through the public RevisionTree API (iter_entries_by_dir, get_file_text, "
@@ -757,7 +764,7 @@ def case(ctx):
     weights = H.WEIGHTS_KC if rng.random() < 0.4 else H.WEIGHTS
     try:
         h = H.build(ctx, rng, fmt, nrevs=nrevs, nbranches=3 if not thorough else 4, names=names, weights=weights,
-                    extra_kinds=H.EXTRA_KINDS + H.REUSE_KINDS * 2, start=H.rich_start if rng.random() < 0.75 else None)
+                    extra_kinds=H.EXTRA_KINDS + H.REUSE_KINDS * 2, start=H.rich_start if rng.random() < 0.75 else None, quiet=0.3)
         repo = H.gather(h)
     except Exception as e:  # workload construction, not the operation under test
         ctx.discard("history-construction:%s" % type(e).__name__)
